@@ -6,6 +6,7 @@ mod guard;
 mod props;
 mod refdns;
 mod runner;
+mod sim;
 
 use runner::Tier;
 
